@@ -33,3 +33,29 @@ Definition step3a (q : q3a) (a : action) : option q3a :=
   | _ => Some q
   end.
 Definition init3a (url : urlparts) (cup : option N) : q3a := {| url3a := url; kid3a := cup |}.
+
+(* ---- step3f: step3a plus "no nonce is ever used twice".  The nonce of a request is whatever follows the expected
+   prefix; it must differ from the nonce of every earlier request of the history (update checks, retries, event reports,
+   pings alike). ---- *)
+Record q3f := { url3f : urlparts; kid3f : option N; seen3f : list bytes }.
+Definition step3f (q : q3f) (a : action) : option q3f :=
+  match a with
+  | AHttp w _ =>
+      match kid3f q with
+      | Some kid =>
+          let pre := cup_prefix (url3f q) kid in
+          let nonce := skipn (length pre) (w_uri w) in
+          if bytes_eqb (firstn (length pre) (w_uri w)) pre && Nat.leb 64 (length nonce) && forallb is_hex nonce
+             && negb (existsb (bytes_eqb nonce) (seen3f q))
+          then Some {| url3f := url3f q; kid3f := kid3f q; seen3f := nonce :: seen3f q |} else None
+      | None => if bytes_eqb (w_uri w) (plain_uri (url3f q)) then Some q else None
+      end
+  | AInstaller (ICreatePlan _ meta _ has_sig) _ =>
+      match kid3f q, meta with
+      | Some _, Some true => if has_sig then Some q else None
+      | None, None => if has_sig then None else Some q
+      | _, _ => None
+      end
+  | _ => Some q
+  end.
+Definition init3f (url : urlparts) (cup : option N) : q3f := {| url3f := url; kid3f := cup; seen3f := [] |}.
